@@ -96,6 +96,7 @@ func dnfPairs(f *eng.Fn, e ast.Expr) (map[string]bool, bool) {
 
 func runC16(p *eng.Prog, r *eng.Report, tier string) {
 	c := &cx{p, r, tier}
+	c.r.Floor("C16.15", "copies from the source in the escape transformers", r18TransformReportsWhatItCopied(c, "C16.15"), 2)
 	c16TransformersStateless(c, "C16.8")
 	pk := p.Pkg("jid")
 	if pk == nil {
